@@ -24,7 +24,7 @@ query has exactly the expected response (Cache Response, payload multiset per ve
 Cache Reset / Error 2 when not ready) and the first malformed one an Error PDU. Non-trivial = schedule with >=1 chunk boundary \
 strictly inside a PDU and >=1 Notify. splits: complete enumeration of every single-PDU stream of a fixed list (25 streams) x \
 every 2-chunk split x 6 notify placements x {ready, not ready}; non-trivial = split strictly inside the PDU with a notify \
-(distinct by construction).";
+(distinct by construction). Wrong query lengths include values that are right in their low 8 / 16 / 24 bits and random 32-bit values; the source's data includes the larger items of rtrsim (provider lists around 64 / 256 and up to 4000 entries, keys up to 5000 octets, tables of 1500..4000 origins).";
 
 const SETTLE_TURNS: u32 = 200;
 
